@@ -50,7 +50,19 @@ def dup(R, ctx):
         return
     body = thir.body_of(fn)
     n = 0
-    for m in tables.matches_on(lib, body, EXPR):
+    # guards may be spelled inline (`matches!(..)`) or through a local predicate function: follow the calls made in arm guards
+    bodies = [body]
+    for mm in thir.walk(body):
+        if mm.get("k") == "Match":
+            for arm in mm["arms"]:
+                if "guard" in arm:
+                    for c in thir.fn_refs(arm["guard"]):
+                        q = lib.fn(callee_of(c) or "")
+                        if q is not None and thir.body_of(q) and not any(thir.body_of(q) is b_ for b_ in bodies):
+                            bodies.append(thir.body_of(q))
+    all_matches = [m for b_ in bodies for m in tables.matches_on(lib, b_, EXPR)]
+    distinct = set()
+    for m in all_matches:
         tbl = tables.variant_table(lib, m, EXPR)
         if len(m["arms"]) == 2 and {tables.classify_body(a["body"]) for a in m["arms"]} == {"true", "false"}:
             # matches!(inner, A | B ..) guard: variants answering true are duplicated as they are
@@ -63,10 +75,12 @@ def dup(R, ctx):
             continue
         for v in sorted(dupd):
             n += 1
+            distinct.add((label, v))
             R.ob(rid, "replace_with|%s@%s|%s" % (label, m.get("ln"), v), v in free, ctx.where(fn, m.get("ln")),
                  "Expression::%s is duplicated without a temporary and %s" % (v, "is effect-free" if v in free else
                                                                              "has_side_effects can be true for it: it is evaluated twice (`t[expr] += 1`)"))
-    R.require(rid, "floor:duplicated-variants", n >= 20, ctx.where(fn), "%d (table, variant) pairs checked (floor 20)" % n)
+    R.require(rid, "floor:duplicated-variants", len(distinct) >= 10 and {l for l, v in distinct} == {"guard", "match"}, ctx.where(fn),
+              "%d (table, variant) pairs checked, %d distinct (guard tables and match tables both present)" % (n, len(distinct)))
     for m in tables.matches_on(lib, body, PREFIX):
         tbl = tables.variant_table(lib, m, PREFIX)
         for v, rows in sorted(tbl.items()):
@@ -99,7 +113,7 @@ def hoist(R, ctx):
             ok = ("then" in kinds and wrapped) or ("else" in kinds and not wrapped)
             R.ob(rid, "remove_types|process_expression@%d" % n, ok, ctx.where(fn, asg.get("ln")),
                  "hoisted value is %s on the %s branch of can_return_multiple_values" % ("parenthesised" if wrapped else "bare", kinds or "NO"))
-        R.require(rid, "remove_types|floor", n >= 4, ctx.where(fn), "%d hoisting assignments (TypeCast x2, TypeInstantiation x2)" % n)
+        R.require(rid, "remove_types|floor", n >= 2, ctx.where(fn), "%d hoisting assignments (TypeCast x2, TypeInstantiation x2)" % n)
     fn = lib.fn("rules::remove_if_expression::Processor::wrap_in_table")
     if R.require(rid, "anchor:wrap_in_table", fn is not None, "", "not found"):
         fa = ctx.an.fa(fn["path"])
@@ -153,44 +167,69 @@ def fold_direction(R, ctx):
                      "accumulator nested as trailing operand; iteration is %s" % ("reversed" if reverse else "FORWARD: the last element ends up outermost, i.e. later branches are tested before earlier ones"))
             else:
                 R.ob(rid, "%s@fold-forward" % f["path"].split("::")[-1], not reverse or not leading, ctx.where(f, c.get("ln")), "left-nested / in-place accumulation, forward iteration", nontrivial=False)
-    R.require(rid, "floor:folds", n >= 5, "", "%d fold sites in the library" % n)
+    R.require(rid, "floor:folds", n >= 3, "", "%d fold sites in the library" % n)
 
 
 def box(R, ctx):
+    from .. import peval
+    from ..peval import Enum, Struct, UNKNOWN, NONE, some
     rid = "C06.box"
     lib = ctx.lib
-    R.rule(rid, "remove_if_expression::convert_if_branch selects the unboxed `cond and result or else` form under a condition that is "
-                "`evaluate(result).is_truthy()` with the constant false as the answer for an unknown value (unwrap_or_default / unwrap_or(false))")
+    R.rule(rid, "remove_if_expression::convert_if_branch, evaluated on abstract operands for every combination of what the evaluator knows "
+                "about the truthiness of condition / result / else value: whenever the branch RESULT is not known to be truthy (unknown or "
+                "falsy) the value built is not the unboxed `condition and result or else` chain (a run-time false/nil result would fall "
+                "through to the else value); the boxed `({..})[1]` form is an index expression")
     fn = lib.fn("rules::remove_if_expression::Processor::convert_if_branch")
     if not R.require(rid, "anchor:convert_if_branch", fn is not None, "", "not found"):
         return
-    fa = ctx.an.fa(fn["path"])
-    ifs = [n for n in thir.walk(thir.body_of(fn)) if n.get("k") == "If" and any(c.get("fname") == "is_truthy" for c in fa.source_calls(n["cond"]))]
-    if not R.require(rid, "anchor:truthy-branch", len(ifs) == 1, ctx.where(fn), "%d branches on is_truthy" % len(ifs)):
+    nparams = len(fn["thir"].get("params", []))
+    if not R.require(rid, "anchor:signature", nparams == 4, ctx.where(fn), "convert_if_branch(self, condition, result, else_result): %d parameters" % nparams):
         return
-    i = ifs[0]
-    cond = i["cond"]
-    while cond.get("k") == "Block" and not cond["stmts"] and "tail" in cond:
-        cond = cond["tail"]
-    ok = False
-    why = "unrecognised condition shape"
-    if cond.get("k") == "Call" and cond.get("fname") in ("unwrap_or_default",):
-        ok, why = True, "unwrap_or_default()"
-    elif cond.get("k") == "Call" and cond.get("fname") == "unwrap_or":
-        d = cond["args"][1]
-        ok = d.get("k") == "Lit" and d.get("v") == "false"
-        why = "unwrap_or(%s)" % (d.get("v") if d.get("k") == "Lit" else "<non-constant>")
-    elif cond.get("k") in ("Binary",) and cond.get("op") == "Eq":
-        ok = any(x.get("k") == "Adt" and x.get("variant") == "Some" for x in thir.walk(cond)) and any(x.get("k") == "Lit" and x.get("v") == "true" for x in thir.walk(cond))
-        why = "== Some(true)"
-    R.ob(rid, "convert_if_branch|unknown-is-boxed", ok, ctx.where(fn, i.get("ln")), "truthiness test is %s: an unknown result %s" % (why, "takes the boxed form" if ok else "may take the unboxed form (a run-time false/nil result falls through to the else value)"))
-    # the then-branch is the unboxed form, the else-branch indexes a table
-    t_idx = any(x.get("k") == "Call" and "IndexExpression" in (x.get("fn") or "") for x in thir.walk(i["then"]))
-    e_idx = "else" in i and any(x.get("k") == "Call" and "IndexExpression" in (x.get("fn") or "") for x in thir.walk(i["else"]))
-    R.ob(rid, "convert_if_branch|branches", (not t_idx) and e_idx, ctx.where(fn, i.get("ln")), "unboxed form on the truthy branch, boxed `({..})[1]` form otherwise: %s" % ((not t_idx) and e_idx))
-    # the evaluated expression is the branch result (parameter #2)
-    ev = [c for c in fa.source_calls(i["cond"]) if c.get("fname") == "evaluate"]
-    R.ob(rid, "convert_if_branch|evaluates-result", bool(ev) and ("#param", 2) in fa.origins(ev[0]["args"][1]), ctx.where(fn), "truthiness of the branch *result* is what is tested")
+    BE = "nodes::expressions::binary::BinaryExpression"
+
+    def leaf(tag, variant="Identifier"):
+        return Enum(EXPR, variant, {"0": tag})
+    scen_values = {"unknown": NONE, "truthy": some(True), "falsy": some(False)}
+    variants = [v["name"] for v in lib.adts[EXPR]["variants"]]
+    # operand shapes: every Expression variant in each of the three positions (one position varied at a time)
+    shapes = [("Identifier", "Identifier", "Identifier")]
+    for v in variants:
+        if v != "Identifier":
+            shapes += [(v, "Identifier", "Identifier"), ("Identifier", v, "Identifier"), ("Identifier", "Identifier", v)]
+    n = 0
+    for shape in shapes:
+      for rs in ("unknown", "falsy", "truthy"):
+        for cs in ("unknown", "truthy", "falsy"):
+            for es in ("unknown", "truthy"):
+                  know = {"result": scen_values[rs], "cond": scen_values[cs], "else": scen_values[es]}
+
+                  def hook(pe, path, fname, args, node, know=know):
+                      if fname == "evaluate" and "evaluator" in path.lower() and len(args) == 2:
+                          return Struct("#LuaValue", {"of": args[1]})
+                      if isinstance(args[0] if args else None, Struct) and args[0].adt == "#LuaValue":
+                          of = args[0].fields["of"]
+                          tag = of.fields.get("0") if isinstance(of, Enum) else None
+                          if fname == "is_truthy":
+                              return know.get(tag, NONE)
+                          return UNKNOWN
+                      return NotImplemented
+                  pe = peval.PEval(lib, ctx.an, hook)
+                  try:
+                      v = pe.call_fn(fn, [Struct("#Processor", {}), leaf("cond", shape[0]), leaf("result", shape[1]), leaf("else", shape[2])])
+                  except peval.OutOfFuel:
+                      v = UNKNOWN
+                  inner = v
+                  while isinstance(inner, Enum) and inner.adt == EXPR and inner.variant == "Binary" and "0" in inner.fields:
+                      inner = inner.fields["0"]
+                  unboxed = isinstance(inner, Struct) and inner.adt == BE and isinstance(inner.fields.get("operator"), Enum) and inner.fields["operator"].variant == "Or"
+                  if rs == "truthy":
+                      continue
+                  n += 1
+                  definite = isinstance(v, (Struct, Enum))
+                  R.ob(rid, "convert_if_branch|%s|result=%s,condition=%s,else=%s" % ("/".join(shape), rs, cs, es), definite and not unboxed, ctx.where(fn),
+                       "result truthiness %s: builds %s" % (rs, ("the unboxed and/or chain -- a false/nil result selects the else value" if unboxed else
+                                                                 (repr(v).split("{")[0] if definite else "a value this rule cannot establish (%s)" % "; ".join(pe.unknown_reasons[:2])))))
+    R.require(rid, "floor:scenarios", n >= 500, ctx.where(fn), "%d scenarios with a result not known truthy" % n)
 
 
 def fresh(R, ctx):
@@ -211,7 +250,7 @@ def fresh(R, ctx):
                 n += 1
                 srcs = [y.get("fname") for y in fa.source_calls(c["args"][0])]
                 R.ob(rid, "replace_with|temp@%d" % n, "generate_variable" in srcs, ctx.where(fn, c.get("ln")), "temporary name derives from generate_variable: %s" % ("generate_variable" in srcs))
-        R.require(rid, "replace_with|floor", n >= 4, ctx.where(fn), "%d temporaries" % n)
+        R.require(rid, "replace_with|floor", n >= 2, ctx.where(fn), "%d temporaries" % n)
 
 
 def repeat_scope(R, ctx):
